@@ -85,7 +85,7 @@ func vhCrashRecovery() {
 		p, g, err := vRun(fsys)
 		vAssert(err == nil && p == tiers && g == tiers, "setup: the first run did not generate every entity")
 		fsys.tick()
-		fsys.put("pki/root.yaml", vCfg("root2", ""), time.Now())
+		fsys.put("pki/root.yaml", vCfg("root2", ""), vNow())
 		vReach("regeneration-run")
 	} else {
 		vReach("first-run")
